@@ -1533,3 +1533,60 @@ Proof. unfold local_pin. now intros -> ->. Qed.
 
 Lemma ipfs_has_eq s c d : ipfs_has s c d = true -> aget c (ipfs s) = Some d.
 Proof. unfold ipfs_has. destruct (aget c (ipfs s)) as [d0|]; [|discriminate]. intros H. f_equal. now apply Bool.eqb_prop. Qed.
+
+(* ------------------------------------------------------------------------------------------------------------ *)
+(* the statements of Props/C05.v over states reached from a (re)started tracker *)
+
+Lemma reached_inv q n ps i evs : Inv (run (init q n ps i) evs).
+Proof. apply run_inv, init_inv. Qed.
+
+Lemma reached_linv_all q n ps i evs : wf_pinset ps -> LInv false (run (init q n ps i) evs).
+Proof. intros W. apply run_linv; [apply init_inv|now apply init_linv|discriminate]. Qed.
+
+Lemma reached_linv_tracker q n ps i evs : wf_pinset ps -> Forall tracker_ev evs -> LInv true (run (init q n ps i) evs).
+Proof. intros W F. apply run_linv; [apply init_inv|now apply init_linv|auto]. Qed.
+
+Lemma converged_local_l q n ps i evs c p : wf_pinset ps ->
+  let s := run (init q n ps i) evs in
+  quiescent s = true -> aget c (pinset s) = Some p -> pmeta p = false -> premote p = false ->
+  aget c (ipfs s) = Some (pdirect p) \/ is_error (status_of s c) = true.
+Proof.
+  intros W s Q Hp Hm Hr.
+  destruct (proj1 (converged false s (reached_inv q n ps i evs) (reached_linv_all q n ps i evs W) Q c) p Hp (pin_local _ Hm Hr)) as [H|H].
+  - left. now apply ipfs_has_eq.
+  - now right.
+Qed.
+
+Lemma converged_removed_l q n ps i evs c : wf_pinset ps -> Forall tracker_ev evs ->
+  let s := run (init q n ps i) evs in
+  quiescent s = true ->
+  (aget c (last s) = Some IUntrack -> aget c (ipfs s) = None \/ is_error (status_of s c) = true) /\
+  (forall p, aget c (last s) = Some (ITrack p) -> pmeta p = false -> premote p = true ->
+     aget c (ipfs s) = None \/ exists o, aget c (table s) = Some o /\ otyp o = ORemote /\ oph o = PError).
+Proof.
+  intros W F s Q.
+  pose proof (converged true s (reached_inv q n ps i evs) (reached_linv_tracker q n ps i evs W F) Q c) as (_ & H2 & H3).
+  split; [exact (H2 eq_refl)|exact (H3 eq_refl)].
+Qed.
+
+Lemma recover_heals_l q n ps i evs ord s1 evs2 c : wf_pinset ps ->
+  let s := run (init q n ps i) evs in
+  quiescent s = true -> step s (ERecoverAll ord) = (s1, ROk) ->
+  Forall ok_complete evs2 -> quiescent (run s1 evs2) = true ->
+  (forall p, aget c (pinset s) = Some p -> pmeta p = false -> premote p = false ->
+     ~ (pdirect p = true /\ aget c (ipfs s) = Some false) -> aget c (ipfs (run s1 evs2)) = Some (pdirect p)) /\
+  (Forall tracker_ev evs -> aget c (last s) = Some IUntrack -> aget c (ipfs (run s1 evs2)) = None).
+Proof.
+  intros W s Q Hs F2 Q2. split.
+  - intros p Hp Hm Hr Hn. apply ipfs_has_eq.
+    apply (proj1 (recover_heals false s ord s1 evs2 (reached_inv q n ps i evs) (reached_linv_all q n ps i evs W) Q Hs F2 Q2 c) p Hp (pin_local _ Hm Hr) Hn).
+  - intros F. apply (proj2 (recover_heals true s ord s1 evs2 (reached_inv q n ps i evs) (reached_linv_tracker q n ps i evs W F) Q Hs F2 Q2 c) eq_refl).
+Qed.
+
+Lemma recover_reissues_l q n ps i evs c x o : wf_pinset ps ->
+  let s := run (init q n ps i) evs in
+  aget c (table (fst (recover_with s c x))) = Some o -> oid o = next s -> otyp o = OPin ->
+  aget c (pinset s) = Some (opin o).
+Proof.
+  intros W s. apply recover_reissues; [apply reached_inv|]. apply (li_keyed _ _ (reached_linv_all q n ps i evs W)).
+Qed.
